@@ -398,3 +398,8 @@ UNITS = [
     method_unit('capacity', {'C01'}),
     ctor, npow2, lem_alias, lem_idle, lem_quiescent,
 ]
+
+# the bounded queue's method units underlie "once each, in thread order" (C03) and "delivered intact" (C08) as a whole
+for u_ in UNITS:
+    if u_['name'] in ('BQ.prepare_write', 'BQ.finish_write', 'BQ.commit_write', 'BQ.finish_and_commit_write', 'BQ.prepare_read', 'BQ.finish_read', 'BQ.commit_read', 'BQ.empty'):
+        u_['underlies'] = {'C03', 'C08'}
